@@ -287,6 +287,67 @@ def drv_numeric(c, ctx, col):
         col.violation(key, {"formula": desc, "ncols": int(Rm.shape[1]), "atom_dimension": want_dim}, sig="numeric:column-count")
 
 
+def drv_numeric_plain(c, ctx, col):
+    """numeric engine only (no atom binding): ordered lists of terms that may carry literal scalings and that may involve a NUMERIC column whose
+    name looks like the printed form of a reduced categorical factor (`A-`)"""
+    pool = ctx["terms"]  # tuples of factor names; literals are factor names that are numbers
+    n = 1 + c.upto(ctx["N"] - 1)
+    idx = []
+    for _ in range(n):
+        i = c.choose(len(pool))
+        if i in idx:
+            raise Skip()
+        idx.append(i)
+    terms = [pool[i] for i in idx]
+    # the parser rejects the same term twice with different scalings: skip lists in which two terms have the same non-literal factors
+    keys = [tuple(sorted(f for f in t if not _is_lit(f))) for t in terms]
+    if len(set(keys)) < len(keys):
+        raise Skip()
+    icpt = c.flag()
+    df = ctx["frame"]
+    tl = ([Term([Factor("1", eval_method="literal")])] if icpt else []) + [
+        Term([Factor(f, eval_method="literal" if _is_lit(f) else "lookup") for f in t]) for t in terms]
+    desc = " + ".join((["1"] if icpt else []) + [":".join(("`%s`" % f) if not f.isidentifier() and not _is_lit(f) else f for f in t) for t in terms])
+    key = "numeric-plain terms=[%s] (ordering none)" % desc
+    fo = Formula(tl, _ordering="none")
+    try:
+        R = fo.get_model_matrix(df, output="numpy")
+        F = fo.get_model_matrix(df, output="numpy", ensure_full_rank=False)
+    except Exception as e:  # noqa
+        col.violation(key, {"error": "%s: %s" % (type(e).__name__, e)}, sig="materialization-raised:" + type(e).__name__)
+        return
+    from props.common import dense
+    Rm, Fm = dense(R), dense(F)
+    r, c1 = gap_rank(Rm)
+    rf, c2 = gap_rank(Fm)
+    rj, c3 = gap_rank(np.hstack([Rm, Fm]))
+    col.interesting()
+    col.sample({"terms": desc, "ncols_reduced": int(Rm.shape[1]), "ncols_full": int(Fm.shape[1]), "rank": r})
+    if not (c1 and c2 and c3):
+        col.count("numeric-inconclusive")
+        return
+    if r != Rm.shape[1] or not (r == rf == rj):
+        col.violation(key, {"formula": desc, "ncols_R": int(Rm.shape[1]), "rank_R": r, "rank_F": rf, "rank_joint": rj, "columns": list(R.model_spec.column_names)},
+                      sig="numeric:" + ("rank-deficient" if r != Rm.shape[1] else "span-changed"))
+
+
+def _is_lit(f):
+    try:
+        float(f)
+        return True
+    except ValueError:
+        return False
+
+
+def plain_terms():
+    base = [("A",), ("B",), ("a",), ("A", "B"), ("A", "a"), ("a", "A", "B"), ("A-",), ("A-", "B"), ("A-", "A")]
+    out = list(base)
+    for t in base[:6]:
+        out.append(("2",) + t)
+        out.append(t + ("2.5",))
+    return out
+
+
 def _base(expr):
     if expr.startswith("C("):
         return expr[2]
@@ -329,6 +390,11 @@ def subchecks(tier, seed):
                                                                         "output": "pandas"}, shard_depth=3,
                     bounds={"factors": ["A(3)", "B(2)", "a"], "max_terms": 2 if quick else 3, "output": "pandas", "index": "labels are a permutation of 0..n-1",
                             "contrasts": ["None", "contr.sum"]}))
+    frn = fr.copy()
+    frn["A-"] = [1.7 + 0.9 * i + 0.31 * ((i * 5) % 7) for i in range(len(frn))]  # a NUMERIC column named like a reduced factor
+    subs.append(Sub("numeric-rank-scalings-and-odd-names", drv_numeric_plain, {"terms": plain_terms(), "N": 2 if quick else 3, "frame": frn}, shard_depth=2,
+                    bounds={"terms": [":".join(t) for t in plain_terms()], "max_terms": 2 if quick else 3, "x": "intercept on/off",
+                            "note": "literal scalings in any position; a numeric column literally named 'A-'"}))
     if not quick:
         subs.append(Sub("numeric-rank-4factors", drv_numeric, {"names": ["A", "B", "a", "b"], "N": 2, "contrasts": [None, "contr.sum"], "frame": fr},
                         shard_depth=3, bounds={"factors": ["A(3)", "B(2)", "a", "b"], "max_terms": 2}))
